@@ -176,12 +176,23 @@ Fixpoint drain (mask : nat) (fuel nthr : nat) (s : st) : st * list ev :=
       end
   end.
 
-(* the whole experiment: queue of (requested) size nq, programs, schedule, then drain *)
+(* the whole experiment: queue of (requested) size nq, programs, schedule, then drain; finally
+   one more thread (id = number of programs) pops (number of pushes + 1) times, so that a
+   complete trace shows where every pushed element went.  Its program is part of the initial
+   state but it is not scheduled before the others have been drained. *)
+Definition is_push_op (o : op) : bool := match o with Push _ => true | Pop => false end.
+Definition final_prog (progs : list (list op)) : list op :=
+  repeat Pop (S (length (filter is_push_op (concat progs)))).
+Definition all_progs (progs : list (list op)) : list (list op) := progs ++ [final_prog progs].
+
 Definition exec (nq : nat) (progs : list (list op)) (sched : list nat) (fuel : nat) : list ev :=
   let mask := norm_nq nq - 1 in
-  let (s1, e1) := run mask sched (init progs) in
-  let (s2, e2) := drain mask fuel (length progs) s1 in
-  e1 ++ e2.
+  let n := length progs in
+  let sched := filter (fun t => Nat.ltb t n) sched in
+  let (s1, e1) := run mask sched (init (all_progs progs)) in
+  let (s2, e2) := drain mask fuel n s1 in
+  let (s3, e3) := drain mask fuel (S n) s2 in
+  e1 ++ e2 ++ e3.
 
 (* ---- the per-slot buffer alone, as the list it is modelled by (sequential use) ---- *)
 Fixpoint slot_run (ops : list op) (q : list nat) : list ev :=
